@@ -64,6 +64,7 @@ type State struct {
 	recoverV string
 	loopEnt  map[*ssa.BasicBlock]map[string]string // heap at loop entry (for old-at-loop)
 	curLoop  *ssa.BasicBlock
+	curBlock *ssa.BasicBlock
 	unstable map[string]bool
 }
 
@@ -87,6 +88,7 @@ func (s *State) clone() *State {
 		recoverV: s.recoverV,
 		loopEnt:  s.loopEnt,
 		curLoop:  s.curLoop,
+		curBlock: s.curBlock,
 		unstable: make(map[string]bool, len(s.unstable)),
 	}
 	for k, v := range s.vals {
@@ -404,6 +406,7 @@ func (fe *FE) store(st *State, loc *Loc, v Val) {
 		fe.errorf("unsupported store of type %s at %s", loc.T, loc.Base)
 		return
 	}
+	fe.loopFrameOb(st, loc.Base, loc.Idx)
 	put := func(c comp, t string) {
 		name := loc.Base + c.suffix
 		arr := fe.heapTerm(st, name, arraySort(idxSorts(len(loc.Idx), ""), c.sort))
@@ -497,4 +500,35 @@ func (fe *FE) asRef(v Val) (string, bool) {
 		return v.Loc.Idx[0], true
 	}
 	return "", false
+}
+
+func rowPreservable(name string) bool {
+	return strings.HasPrefix(name, "E_") || strings.HasPrefix(name, "Mdom_") || strings.HasPrefix(name, "Mval_") || strings.HasPrefix(name, "Mlen_")
+}
+
+// inLoop: the current block lies in the body of a loop that is open on this path.
+func (fe *FE) inLoop(st *State) bool {
+	if st.curBlock == nil {
+		return false
+	}
+	for h := range st.open {
+		if li := fe.loops[h]; li != nil && li.body[st.curBlock] {
+			return true
+		}
+	}
+	return false
+}
+
+// loopFrameOb: inside loops, element arrays and maps that already existed when the function was
+// entered are only written if the loop declares it (`loop K writes ...`); in exchange their rows
+// survive the havoc at the loop head.
+func (fe *FE) loopFrameOb(st *State, base string, idx []string) {
+	if !rowPreservable(base) || len(idx) == 0 || !fe.inLoop(st) {
+		return
+	}
+	ref := idx[0]
+	if strings.HasPrefix(ref, "(+ cnt") {
+		return
+	}
+	fe.addOb(st, "loop-frame", sanitize(base)+"@"+fe.curPos, nil, "(or (= "+ref+" 0) (> "+ref+" cnt!entry))", "inside a loop only arrays/maps allocated by this activation are written (rows of pre-existing ones are kept across the loop havoc)")
 }
